@@ -352,16 +352,18 @@ def spec_groupby(items, p):
 
 
 def _spec_extreme(items, p, pick):
+    """Python's min()/max(): 'If multiple items are minimal [maximal], the function returns the first one
+    encountered' - the result is that very item (identity; for equal immutable values same type and value)."""
     if not items:
         return IsUndefined()
     keys = [fold(lookup(it, p["attribute"]), p["case_sensitive"]) for it in items]
     best = pick(keys)
-    ok = [it for it, k in zip(items, keys) if k == best]
+    first = [it for it, k in zip(items, keys) if k == best][0]
 
     def pred(got):
-        if not any(got is it or same(got, it) for it in ok):
-            return "expected one of the items with extreme key %r (%r), got %r" % (best, ok, got)
-        return None
+        if got is first or (type(got) is type(first) and not isinstance(first, (Obj, dict, list)) and same(got, first)):
+            return None
+        return "expected the first item with extreme key %r, i.e. %r, got %r" % (best, first, got)
 
     return Pred(pred)
 
@@ -553,6 +555,11 @@ def spec_wordwrap(s, p, newline="\n"):
     sep = newline if p["wrapstring"] is None else p["wrapstring"]
     paragraphs = s.splitlines()
     ws = WS_TEXTWRAP
+    # textwrap (the documented engine) breaks at its ASCII whitespace set only but strips lines with
+    # str.strip(), which also removes other Unicode whitespace: what happens to such characters is not
+    # a documented contract, so paragraphs containing them are declined.
+    if any(ch.isspace() and ch not in ws for para in paragraphs for ch in para):
+        raise Undecided("whitespace outside textwrap's ASCII set")
 
     def pred(got):
         if not isinstance(got, str):
